@@ -119,6 +119,8 @@ Record meter_write := MeterWrite {
 
 Definition up4_add_slice_info (slice_id tc : N) (s : slice_info) : list meter_write :=
   let '(mbr, burst) := if s_dl s <? s_ul s then (s_ul s, s_ulb s) else (s_dl s, s_dlb s) in
+  (* P4Runtime carries the burst as int64: clamped to math.MaxInt64 *)
+  let burst := if max_int64 <? burst then max_int64 else burst in
   match get_slice_tc_meter_index slice_id tc with
   | None => []                                                  (* error returned, logged by the handler *)
   | Some cell =>
@@ -223,7 +225,8 @@ Definition bess_meter_spec (cu cd ulb dlb : N) : list write :=
     WBess (BessCmd "sliceMeter" "add"
        (QosAdd 0 1 (cd / 8) 1 (if dlb =? 0 then 48448 else dlb) 0 50 [0; 1])) ].
 
-(* what the UP4 slice/TC meter cell must be told: the larger rate with the burst of that side *)
+(* what the UP4 slice/TC meter cell must be told: the larger rate with the burst of that side,
+   the burst saturated at 2^63-1 (the largest value P4Runtime's int64 pburst can carry) *)
 Definition up4_meter_spec (slice_id tc : N) (cu cd ulb dlb : N) : list write :=
   [ WUp4 (MeterWrite 2 336833095 (Z.of_N (4 * slice_id + tc)) 0 0
-                     (Z.of_N (N.max cu cd)) (Z.of_N (if cd <? cu then ulb else dlb))) ].
+                     (Z.of_N (N.max cu cd)) (Z.of_N (N.min (if cd <? cu then ulb else dlb) (2 ^ 63 - 1)))) ].
